@@ -41,6 +41,7 @@ def cases(tier, rng, boost=1):
     yield _mk('mcmc_public', trajs=[[1, 2, 1, 2, 1, 2, 1, 3, 1, 3, 1, 5, 1, 4, 4, 1]], lag=1, steps=8, start=1, useed=4,
               src='corpus', force_top=True)
     yield _mk('tmat_public', counts=[[1, 1], [1, 3]], steps=5, start=0, useed=5, src='corpus')
+    yield _mk('tmat_public', counts=[[250000, 1, 1], [1, 1, 0], [1, 0, 1]], steps=6, start=0, useed=8, src='corpus', force_top=True)
     # rare transition: T_01 = T_02 < 1e-5 (tails of the cumulative row must stay reachable)
     yield _mk('mcmc_public', trajs=[[0] * 120000 + [1, 0, 2, 1, 2, 0, 0, 1, 1, 2, 2, 0]], lag=1, steps=4, start=0, useed=6, src='corpus')
     n_models = {'quick': 150, 'thorough': 1500, 'search': 500}[tier] * boost
@@ -163,7 +164,7 @@ def real(case):
     np.random.seed(case['useed'] & 0x7fffffff)
     cum0 = np.cumsum(tmat / tmat.sum(axis=1, keepdims=True), axis=1)
     perm0 = np.tile(np.arange(n), (n, 1))
-    ks, targeted = _choose_draws(cum0, perm0, expect_start, max(case['steps'] - 1, 0), rng)
+    ks, targeted = _choose_draws(cum0, perm0, expect_start, max(case['steps'] - 1, 0), rng, case.get('force_top', False))
     orig = ds._propagate_MCMC
 
     def wrapper(cummat, start, steps):
@@ -192,20 +193,22 @@ def request(case, obs):
     o = {'err': obs['err']} if 'err' in obs else {'ok': obs['ok']}
     if case['op'] == 'mcmc_public':
         return {'op': 'mcmc_public', 'trajs': case['trajs'], 'lag': case['lag'], 'steps': case['steps'],
-                'start': obs['start_label'], 'us': us, 'obs': o}
+                'start': obs.get('start_label', case['start']), 'us': us, 'obs': o}
+    if 'T' not in obs:
+        return {'op': 'ping'}
     return {'op': 'tmat_public', 'T': obs['T'], 'steps': case['steps'], 'start': obs['start_idx'], 'us': us,
             'stochastic': not case.get('bad', False), 'obs': o}
 
 
 def agree(case, obs, reply):
-    m = reply['model']
+    m = reply.get('model', {})
     if 'err' in obs:
         return m.get('err') == obs['err']
     return 'ok' in m and m['ok'] == obs['ok']['chain'] and bool(reply.get('cum_ok'))
 
 
 def holds(case, obs, reply):
-    return bool(reply['holds'])
+    return bool(reply.get('holds', False))
 
 
 def nontrivial(case, obs, reply):
